@@ -152,22 +152,30 @@ type SolverRes struct {
 var solverCmds = map[string][]string{
 	"z3-new":      {"z3-new", "-smt2", "smt.mbqi=false", "auto_config=false"}, // E-matching only
 	"z3-new-mbqi": {"z3-new", "-smt2"},
+	// E-matching without the array extensionality axioms: a weaker theory (unsat answers stay valid) that
+	// avoids the case splits on nested heap arrays; much faster on large functions
+	"z3-new-noext": {"z3-new", "-smt2", "smt.mbqi=false", "auto_config=false", "smt.array.extensional=false"},
 	"z3":          {"z3", "-smt2"},
 	"z3-ematch":   {"z3", "-smt2", "smt.mbqi=false", "auto_config=false"},
 	"cvc5":        {"cvc5", "--lang=smt2"},
 }
 
 func runSolver(name string, file string, timeout time.Duration, extra ...string) SolverRes {
+	return runSolverCtx(context.Background(), name, file, timeout, extra...)
+}
+
+// runSolverCtx: as runSolver; the solver is killed when parent is cancelled (status "cancelled")
+func runSolverCtx(parent context.Context, name string, file string, timeout time.Duration, extra ...string) SolverRes {
 	args := append([]string{}, solverCmds[name][1:]...)
 	switch name {
-	case "z3", "z3-new", "z3-new-mbqi", "z3-ematch":
+	case "z3", "z3-new", "z3-new-mbqi", "z3-ematch", "z3-new-noext":
 		args = append(args, fmt.Sprintf("-T:%d", int(timeout.Seconds())+1))
 	case "cvc5":
 		args = append(args, fmt.Sprintf("--tlimit=%d", timeout.Milliseconds()))
 	}
 	args = append(args, extra...)
 	args = append(args, file)
-	ctx, cancel := context.WithTimeout(context.Background(), timeout+3*time.Second)
+	ctx, cancel := context.WithTimeout(parent, timeout+3*time.Second)
 	defer cancel()
 	start := time.Now()
 	cmd := exec.CommandContext(ctx, solverCmds[name][0], args...)
@@ -193,6 +201,8 @@ func runSolver(name string, file string, timeout time.Duration, extra ...string)
 		st = "sat"
 	case first == "unknown":
 		st = "unknown"
+	case parent.Err() != nil:
+		st = "cancelled"
 	case strings.Contains(o, "timeout") || ctx.Err() != nil:
 		st = "timeout"
 	}
